@@ -22,7 +22,9 @@ import (
 var c02Behaviours = []string{"good", "revoked", "unknown", "http500", "refused", "html", "ldap", "https-good", "forged-good", "good-for-other-serial", "revoked-large",
 	// an authentic "revoked" whose revocationTime lies 10 minutes ahead of the validator's clock (responder clock ahead,
 	// post-dated revocation); a responder URL whose scheme is written in capitals (legal; the http client follows it)
-	"revoked-post-dated", "revoked-scheme-in-capitals"}
+	"revoked-post-dated", "revoked-scheme-in-capitals",
+	// the responder named in the certificate has moved: it answers 307 / 308 and the authentic answer comes from the new address
+	"revoked-via-307", "revoked-via-308"}
 
 type c02Case struct {
 	List     []int // behaviour index per responder position
@@ -49,9 +51,10 @@ func c02URL(i int, b int) string {
 	case "https-good":
 		return fmt.Sprintf("https://ocsp.test/s%d", i)
 	case "revoked-scheme-in-capitals":
-		return fmt.Sprintf("HTTP://ocsp.test/s%d", i)
+		return fmt.Sprintf("HTTP://ocsp.test/OCSP/Issuing-CA/S%d", i)
 	}
-	return fmt.Sprintf("http://ocsp.test/s%d", i)
+	// (path and query of a responder address are case sensitive)
+	return fmt.Sprintf("http://ocsp.test/OCSP/Issuing-CA/S%d?Key=Value", i)
 }
 
 // c02Route: the URL as the origin sees it (the http client lower-cases the scheme)
@@ -78,7 +81,7 @@ func c02Ref(c c02Case) (verdict string, answered bool) {
 		switch c02Behaviours[b] {
 		case "good", "https-good":
 			return "OK", true
-		case "revoked", "revoked-large", "revoked-post-dated", "revoked-scheme-in-capitals":
+		case "revoked", "revoked-large", "revoked-post-dated", "revoked-scheme-in-capitals", "revoked-via-307", "revoked-via-308":
 			return "REVOKED", true
 		case "unknown":
 			return "ANY", true
@@ -197,6 +200,15 @@ func (k *c02Cast) run(c c02Case) (v0, v1, v2 Verdict, hits1, hits2 int) {
 			case "revoked", "revoked-scheme-in-capitals":
 				ans.Status = xocsp.Revoked
 				serve(url, "revoked", world.BuildOCSP(ans))
+			case "revoked-via-307", "revoked-via-308":
+				ans.Status = xocsp.Revoked
+				moved := fmt.Sprintf("http://ocsp-new.test/Responder%d", i)
+				code := 307
+				if c02Behaviours[b] == "revoked-via-308" {
+					code = 308
+				}
+				w.Net.Routes[url] = &world.Behaviour{Label: "moved", Redirect: code, RedirectTo: moved}
+				serve(moved, "revoked-at-new-address", world.BuildOCSP(ans))
 			case "revoked-post-dated":
 				ans.Status, ans.RevokedAt = xocsp.Revoked, vsched.Epoch.Add(10*time.Minute)
 				serve(url, "revoked-post-dated", world.BuildOCSP(ans))
@@ -402,7 +414,7 @@ func RunC02(tier string, args []string) int {
 	cov := fw.Coverage{
 		"evaluations":         evals,
 		"distinct_nontrivial": nontrivial,
-		"rule":                "all responder lists of length 0..3 (quick, 2380 lists) / 0..4 (thorough, 30941 lists) over 13 behaviours; every case starts with the lookup of a client of the re-keyed CA on the same checker; x aia_strict(2) x default cache duration {0,10m} x nextUpdate {absent,+1h} (thorough) x chain shape (4 quick / 6 thorough, incl. a chain which does not contain the issuer and two chains whose CA certificates share a name); each case is a history on a fresh checker: all responders down, lookup; responders as listed, lookup; all down, lookup. Non-trivial = at least one responder named.",
+		"rule":                "all responder lists of length 0..3 (quick, 2380 lists) / 0..4 (thorough, 30941 lists) over 15 behaviours; every case starts with the lookup of a client of the re-keyed CA on the same checker; x aia_strict(2) x default cache duration {0,10m} x nextUpdate {absent,+1h} (thorough) x chain shape (4 quick / 6 thorough, incl. a chain which does not contain the issuer and two chains whose CA certificates share a name); each case is a history on a fresh checker: all responders down, lookup; responders as listed, lookup; all down, lookup. Non-trivial = at least one responder named.",
 		"samples":             samples,
 		"outcome_classes":     outcomes.Counts(),
 		"exhaustive":          true,
